@@ -705,3 +705,98 @@ Proof.
     cbn [concat length]. rewrite !app_length. cbn [length]. lia. }
   rewrite app_length. lia.
 Qed.
+
+(** ** below_uniform: every value below 2^n is the candidate of exactly 2^(top_shift n) word
+    tuples — one for each value of the discarded low bits of the top word. *)
+Fixpoint words_n (k : nat) (x : Z) : list Z :=
+  match k with O => [] | S k' => (x mod W32) :: words_n k' (x / W32) end.
+
+Lemma words_n_length k : forall x, length (words_n k x) = k.
+Proof. induction k; intros; cbn [words_n length]; auto. Qed.
+Lemma words_n_words k : forall x, words (words_n k x).
+Proof.
+  induction k; intros x; cbn [words_n]; constructor; [|apply IHk].
+  unfold word. pose proof W32_pos. apply Z.mod_pos_bound. lia.
+Qed.
+Lemma val32_words_n k : forall x, val32 (words_n k x) = x mod W32 ^ Z.of_nat k.
+Proof.
+  induction k as [|k IH]; intros x.
+  - cbn [words_n val32 Z.of_nat]. rewrite Z.pow_0_r, Z.mod_1_r. reflexivity.
+  - cbn [words_n]. rewrite val32_cons, IH, Nat2Z.inj_succ, Z.pow_succ_r by lia.
+    pose proof W32_pos. pose proof (W32_pow_pos (Z.of_nat k) ltac:(lia)).
+    rewrite Z.rem_mul_r by lia. reflexivity.
+Qed.
+
+Lemma val32_inj_len a : forall b, words a -> words b -> length a = length b ->
+  val32 a = val32 b -> a = b.
+Proof.
+  induction a as [|d a IH]; intros [|e b] Ha Hb Hl Hv; try discriminate; [reflexivity|].
+  inversion Ha as [|? ? Hd Ha']; inversion Hb as [|? ? He Hb']; subst.
+  rewrite !val32_cons in Hv. unfold word, W32 in *.
+  assert (d = e) by lia. subst e. f_equal. apply IH; auto. lia.
+Qed.
+
+Theorem cand_fibre n v low : 0 <= n -> 0 <= v < 2 ^ n -> 0 <= low < 2 ^ top_shift n ->
+  exists ws,
+    (words ws /\ chunk_ok n ws /\ cand n ws = v /\ last ws 0 mod 2 ^ top_shift n = low) /\
+    forall ws', words ws' -> chunk_ok n ws' -> cand n ws' = v ->
+                last ws' 0 mod 2 ^ top_shift n = low -> ws' = ws.
+Proof.
+  intros Hn Hv Hlow. unfold chunk_ok.
+  destruct (Z.eq_dec (nwords n) 0) as [K0|K0].
+  - (* n = 0 *)
+    assert (N0 : n = 0) by (unfold nwords in K0; lia). rewrite N0 in *.
+    change (top_shift 0) with 0 in *. change (2 ^ 0) with 1 in *.
+    exists []. split.
+    + repeat split; try constructor; try lia; cbn; lia.
+    + intros ws' _ Hl _ _. rewrite K0 in Hl. destruct ws'; [reflexivity|cbn [length] in Hl; lia].
+  - pose proof (top_shift_range n) as Hs. pose proof (nwords_top_shift n Hn) as Hk.
+    set (sh := top_shift n) in *. set (k := nwords n) in *.
+    assert (Hk0 : 0 <= k) by (subst k; unfold nwords; lia).
+    set (P := W32 ^ (k - 1)). assert (HP : 0 < P) by (apply W32_pow_pos; lia).
+    assert (H2s : 0 < 2 ^ sh) by (apply Z.pow_pos_nonneg; lia).
+    assert (Hn2 : 2 ^ n = P * 2 ^ (32 - sh)).
+    { subst P. rewrite W32_pow, <- Z.pow_add_r by lia. f_equal. lia. }
+    assert (H32 : 2 ^ (32 - sh) * 2 ^ sh = W32).
+    { rewrite <- Z.pow_add_r by lia. replace (32 - sh + sh) with 32 by lia. reflexivity. }
+    assert (H2t : 0 < 2 ^ (32 - sh)) by (apply Z.pow_pos_nonneg; lia).
+    set (q := v / P). set (t := q * 2 ^ sh + low).
+    assert (Hq : 0 <= q < 2 ^ (32 - sh)).
+    { subst q. split; [apply Z.div_pos; lia|]. apply Z.div_lt_upper_bound; lia. }
+    assert (Ht : t / 2 ^ sh = q /\ t mod 2 ^ sh = low).
+    { subst t. split; [symmetry; apply Z.div_unique with low; lia|symmetry; apply Z.mod_unique with q; lia]. }
+    assert (Htw : word t) by (unfold word; subst t; nia).
+    set (l := words_n (Z.to_nat (k - 1)) v).
+    assert (Hll : length l = Z.to_nat (k - 1)) by apply words_n_length.
+    assert (Hlv : val32 l = v mod P).
+    { subst l P. rewrite val32_words_n. rewrite Z2Nat.id by lia. reflexivity. }
+    assert (Hcand : forall ws', words ws' -> Z.of_nat (length ws') = k ->
+              cand n ws' = val32 (removelast ws') + P * (last ws' 0 / 2 ^ sh) /\ ws' <> [] /\
+              0 <= val32 (removelast ws') < P).
+    { intros ws' Hw' Hl'. assert (Hne : ws' <> []) by (intros ->; cbn [length] in Hl'; lia).
+      pose proof (val32_bound _ (words_removelast _ Hw')) as Hb.
+      rewrite length_removelast_Z in Hb by auto. rewrite Hl' in Hb. fold P in Hb.
+      split; [|auto]. rewrite cand_nonempty, val32_app, length_removelast_Z by auto.
+      cbn [val32]. rewrite Hl'. fold P. fold sh. lia. }
+    exists (l ++ [t]). split.
+    + assert (Hw : words (l ++ [t])).
+      { apply words_app. split; [apply words_n_words|constructor; [auto|constructor]]. }
+      assert (Hlen : Z.of_nat (length (l ++ [t])) = k) by (rewrite app_length, Hll; cbn [length]; lia).
+      split; [auto|]. split; [auto|].
+      destruct (Hcand _ Hw Hlen) as (Hc & _ & _). rewrite Hc, removelast_last, last_last.
+      destruct Ht as [Ht1 Ht2]. rewrite Ht1, Ht2, Hlv. split; [|reflexivity].
+      subst q. pose proof (Z.div_mod v P ltac:(lia)). lia.
+    + intros ws' Hw' Hl' Hc' Hlow'.
+      destruct (Hcand _ Hw' Hl') as (Hc & Hne & Hb). rewrite Hc in Hc'.
+      set (q' := last ws' 0 / 2 ^ sh) in *.
+      assert (Hq' : q' = q /\ val32 (removelast ws') = v mod P).
+      { subst q. split; [apply Z.div_unique with (val32 (removelast ws')); lia|
+                         apply Z.mod_unique with q'; lia]. }
+      destruct Hq' as [Hq1 Hq2].
+      assert (Hlast : last ws' 0 = t).
+      { subst t. rewrite <- Hq1. subst q'. rewrite <- Hlow'.
+        pose proof (Z.div_mod (last ws' 0) (2 ^ sh) ltac:(lia)). lia. }
+      rewrite (app_removelast_last 0 Hne), Hlast. f_equal.
+      apply val32_inj_len; [apply words_removelast; auto|apply words_n_words| |lia].
+      apply Nat2Z.inj. rewrite length_removelast_Z, Hl', Hll by auto. lia.
+Qed.
